@@ -55,6 +55,7 @@ struct Case {
     const char* mode = "structured";
     const char* order = "listed";
     std::vector<Seg> segs;        // arrival order
+    int dup_hs_at = -1;           // a retransmitted handshake packet (SYN / SYN+ACK, same ISN) arrives before this step (-1: never)
 };
 
 // position dependent content; defined for negative positions too (bytes "before the ISN")
@@ -617,6 +618,11 @@ static void run_flow_t(const Case& c, const Plan& p, Ctx& ctx, const IPT& proto,
         const Seg& g = c.segs[i];
         const uint32_t k = p.k_after[i];
         Bytes data = seg_bytes(c, g);
+        if (c.flow_syn && c.dup_hs_at == (int)i) {
+            std::unique_ptr<PDU> syn = make_packet(c, proto, CPORT, SPORT, c.isn, 0, TCP::SYN, nullptr, wired);
+            f.process_packet(*syn);
+            ctx.label("duplicate-syn-mid-stream");
+        }
         std::unique_ptr<PDU> pkt = make_packet(c, proto, CPORT, SPORT, c.seq0 + (uint32_t)g.off, 1000, TCP::ACK | (g.len ? TCP::PSH : 0), &data, wired);
         if (wired) ctx.label("flow-wire-packet");
         f.process_packet(*pkt);
@@ -698,6 +704,14 @@ static void run_legacy(const Case& c, const Plan& p, Ctx& ctx) {
         const Seg& g = c.segs[i];
         const uint32_t k = p.k_after[i];
         Bytes data = seg_bytes(c, g);
+        if (c.dup_hs_at == (int)i) {
+            // both handshake packets again, exactly as they were sent
+            std::unique_ptr<PDU> syn = make_packet(c, c2s, CPORT, SPORT, cisn, 0, TCP::SYN, nullptr, wired);
+            feed(*syn);
+            std::unique_ptr<PDU> synack = make_packet(c, s2c, SPORT, CPORT, sisn, cisn + 1, TCP::SYN | TCP::ACK, nullptr, wired);
+            feed(*synack);
+            ctx.label("duplicate-handshake-mid-stream");
+        }
         std::unique_ptr<PDU> pkt = srv ? make_packet(c, s2c, SPORT, CPORT, c.seq0 + (uint32_t)g.off, cisn + 1, TCP::ACK, &data, wired)
                                        : make_packet(c, c2s, CPORT, SPORT, c.seq0 + (uint32_t)g.off, sisn + 1, TCP::ACK, &data, wired);
         feed(*pkt);
@@ -725,6 +739,7 @@ static void run_case(const Case& c, Ctx& ctx) {
     ctx.hash(c.n);
     ctx.hash((uint64_t)c.consume | (c.trk_setter << 1) | (c.flow_syn << 2) | (c.flow_v6 << 3) | (c.legacy_server << 4) | (c.wire << 5));
     for (const Seg& g : c.segs) ctx.hash((uint64_t)g.off * 0x10001ULL + g.len);
+    ctx.hash((uint64_t)(c.dup_hs_at + 1));
     ctx.label(std::string("mode:") + c.mode);
     ctx.label(std::string("order:") + c.order);
     if (c.consume) ctx.label("app-consumes-in-callback"); else ctx.label("app-keeps-payload");
@@ -758,6 +773,10 @@ void prop(Src& s, Ctx& ctx) {
     if (sel >= 192) decode_literal(s, c);
     else decode_structured(s, c, ctx);
     fix_edges(c);
+    {   // drawn last: "any duplication" includes the handshake packets, which can be retransmitted at any time
+        unsigned d = s.u8();
+        if ((d & 3) == 3) c.dup_hs_at = (int)((d >> 2) % (c.segs.size() + 1));
+    }
     run_case(c, ctx);
 }
 
